@@ -17,7 +17,7 @@ ID = "C06"
 LEVEL = "fault_enumeration"
 MIN_OUTCOMES = 3
 MANIFEST = {
-    'text': 'Single-fault enumeration over the rewrite phase: for every project shape (1..3 / 1..5 files, four pattern sets per file incl. partial patterns that do not change with the bump, v2 and legacy, TOML and INI), every order of the configured files (config entry explicit at every position or implicit), a file reached through a glob AND an explicit entry, a glob entry whose files have all been removed, and every fault position (pattern without match, missing file, configured path that is a directory, undecodable file, rejected version: lower, equal or malformed --set-version, bump without change) the real `update`, `update --dry` and `update` with commit/tag/push (fake git) are executed; with a fault they must exit non-zero, leave every byte unchanged and issue no add/commit/tag/push and no hook; fault-free controls must succeed. Project files differ in line-ending style (CRLF, LF, CR, with and without final newline) and carry non-ASCII text, so a restore that re-encodes them shows.',
+    'text': 'Single-fault enumeration over the rewrite phase: for every project shape (1..3 / 1..5 files, four pattern sets per file incl. partial patterns that do not change with the bump, v2 and legacy, TOML and INI), every order of the configured files (config entry explicit at every position or implicit), a file reached through a glob AND an explicit entry, a glob entry whose files have all been removed, and every fault position (pattern without match, missing file, configured path that is a directory, undecodable file, rejected version: lower, equal or malformed --set-version, bump without change, --set-version of a version that already exists as a tag) the real `update`, `update --dry` and `update` with commit/tag/push (fake git) are executed; with a fault they must exit non-zero, leave every byte unchanged and issue no add/commit/tag/push and no hook; fault-free controls must succeed. Project files differ in line-ending style (CRLF, LF, CR, with and without final newline) and carry non-ASCII text, so a restore that re-encodes them shows.',
     'note': 'double faults and I/O errors of the write itself (disk full, permissions) are outside the bound',
     'technique': 'exhaustive single-fault enumeration (deviation bound 1) over file orders on the real CLI with a fake VCS seam',
 }
